@@ -13,7 +13,15 @@ typed receive and MPI_Bcast, and prints which destination bytes changed and whic
 bytes TLC printed: layout first (the innermost node whose size/lb/extent deviates is the culprit; nodes above it and the transfers of that tree are
 not judged separately), then every (count, mode, rank) transfer.
 
-MUTATIONS
+Mutation evidence (tools/mutbuild.sh worktree, quick tier, one mutation at a time; all gave exit 1 with a VIOLATION line):
+  * create_vector: ub forgets the block length (ub = (count-1)*stride*extent + ub(old))        -> caught, C30:layout:vector:* (414 trees)
+  * Type_Hindexed::serialize takes block_indices_[i] instead of [i+1] for the next block        -> caught, C30:transfer:count1:regular:<constructor> (522 trees;
+    none of them is absorbed by the known element-stepping finding: the labels of that finding are computed from the inputs, not from the symptom)
+  * Type_Contiguous::serialize ignores lb (contiguous collapse of an indexed/struct type)       -> caught, C30:transfer:count1:regular:<constructor> (107 trees)
+  Fix validation: with the three proposed C30 diffs applied (indexed/struct bounds, subarray extent, serialize element stride) the check exits 0 with no
+  KNOWN-FINDING line: every layout and every transfer of every generated tree then agrees with TLC.
+  Known weakness: of the trees labelled "irregular element" (inputs of the known stepping defect) about 30% transfer correctly today; a new defect that only
+  affected those trees at count >= 2 would be reported under the known signature (the label is an over-approximation of the defect's inputs).
 """
 import json
 import vlib
